@@ -329,6 +329,9 @@ def run_main(argv, ctx, threading_obj=None, input_fn=None, out=None, keep_err=Fa
     out = out or guesser.LineRecorder()
     out.on_line = ctx.on_line
     err = guesser.Sink(keep=keep_err)
+    if ctx.knobs.get("kbd_stderr_fault"):
+        err = guesser.KbdFaultySink(*ctx.knobs["kbd_stderr_fault"])
+        ctx.stderr_sink = err
     fake_dt = FakeDatetimeModule(ctx.clock)
     saved = (sys.argv, cs.threading, cs.time, sr.time, sr.datetime, pcfg_guesser.datetime,
              cs.__dict__.get("input"))
